@@ -164,6 +164,8 @@ func checkC13(c *fw.Ctx) {
 				}
 				return true, true // every later check passes
 			},
+			// the destination test may live in a helper taking the destination as an argument
+			expand: func(atom string) bool { return strings.Contains(atom, ".fields.Destination") },
 		}
 		_ = tbl
 		compareTable(c, rule, "destination check: own name, or the predicate when one is given; absent => default", verify, 0, []tvar{{"absent", tf}, {"noPred", tf}, {"predOK", tf}, {"same", tf}}, ip, func(a asg) string {
